@@ -3,7 +3,7 @@
      S find|rfind <s> <t>    -> V<decimal as str> | N                             the executable spec S
      S slice <s> <a> <b>     -> V<str> | N            (a, b decimal byte offsets)
      J <sep> <list>          -> V<str>                join
-     K <prefix tree>         -> result of calc on the expression tree
+     K <prefix tree>         -> result of calc on the expression tree; BIG<str> = exact integer value beyond 2^53
                                 tree ::= l<decimal> | n tree | (+|-|*|/|%) tree tree
      WS                      -> all scalar values the model's is_ws accepts, as a str *)
 let res r = match r with
@@ -41,7 +41,11 @@ let () = iter_lines (fun line ->
   | ["S"; "rfind"; s; t] -> print_endline (opt_n (spec_rfind (str_of_field s) (str_of_field t)))
   | ["S"; "slice"; s; a; b] -> print_endline (opt_s (spec_slice (str_of_field s) (n_of_decimal a) (n_of_decimal b)))
   | ["J"; t; l] -> print_endline ("V" ^ field_of_str (join (str_of_field t) (list_of_field l)))
-  | ["K"; tree] -> let (e, _) = p_expr (String.split_on_char ' ' tree) in print_endline (res (cmd_calc_expr e))
+  | ["K"; tree] ->
+      let (e, _) = p_expr (String.split_on_char ' ' tree) in
+      (match cmd_calc_expr e, calc_exact e with
+       | ROod, Some v -> print_endline ("BIG" ^ field_of_str v)   (* an integer beyond 2^53: exact value *)
+       | r, _ -> print_endline (res r))
   | ["WS"] ->
       let acc = ref [] in
       for c = 0x10FFFF downto 0 do
